@@ -47,6 +47,17 @@ def _pl_obligations(h, x, y, t, sol, tag=""):
         return h.Or(segs)
 
     h.check(tag + "crossed/touched target: every returned point solves PL(z) = t", h.Implies(touch, h.And([solves(z) for z in sol])))
+    # completeness at isolated crossings/touches ("... whenever the samples cross or touch it"): every segment whose end
+    # values lie strictly on either side of t contributes a point of that segment, and every interior sample that equals
+    # t while both neighbours differ from t is returned.  Plateaus at t and a touch at the last sample are not demanded.
+    for j in range(n - 1):
+        strict = h.Or(h.And(y[j] < t, y[j + 1] > t), h.And(y[j] > t, y[j + 1] < t))
+        h.check(tag + f"segment {j} strictly crosses the target: one of the returned points lies on it",
+                h.Implies(strict, h.Or([h.And(h.le(x[j], z), h.le(z, x[j + 1])) for z in sol])))
+    for k in range(1, n - 1):
+        iso = h.And(h.eq(y[k], t, 0), h.Not(h.eq(y[k - 1], t, 0)), h.Not(h.eq(y[k + 1], t, 0)))
+        h.check(tag + f"interior sample {k} touches/crosses the target in isolation: it is returned",
+                h.Implies(iso, h.Or([h.eq(z, x[k], 0) for z in sol])))
     closest = h.Or([h.And(h.eq(sol[0], x[k], 0), h.And([h.le(h.abs(y[k] - t), h.abs(y[i] - t)) for i in range(n)])) for k in range(n)])
     h.check(tag + "otherwise: exactly one point, a sample point of minimal |y - t|", h.Implies(h.Not(touch), h.And(len(sol) == 1, closest)))
 
